@@ -91,10 +91,17 @@ def make_task_class(index: int):
     from stabilize import Task, TaskResult
     from stabilize.errors import TransientError
 
-    class VTask(Task):
+    from stabilize.tasks.interface import SkippableTask
+
+    class VTask(SkippableTask):
         position = index
 
-        def execute(self, stage):  # noqa: ANN001
+        def is_enabled(self, stage):  # noqa: ANN001
+            script = (stage.context.get("_v") or {}).get("tasks") or []
+            spec = script[index] if index < len(script) else {"b": "ok"}
+            return spec.get("b", "ok") != "disabled"  # a SkippableTask that is switched off: the engine skips it without running it
+
+        def do_execute(self, stage):  # noqa: ANN001
             ctx = stage.context
             script = (ctx.get("_v") or {}).get("tasks") or []
             spec = script[index] if index < len(script) else {"b": "ok"}
